@@ -539,7 +539,10 @@ def _ref_rule(r, p, ref_src, modq, init_ok=(), skip=(), branch_skip=()):
             node = _bind_keywords(p, fn, modq)
             ref_b = _bind_keywords(p, None, modq, node=ref)
             names = None
-            res = refdefs.compare(node, ref_b, names=names, init_ok=init_ok, skip_under=branch_skip)
+            # helpers of the module that the reference text never mentions: new functions that hold part of the algorithm
+            mod_ = p.module(modq)
+            unknown = {nm_ for nm_ in mod_.functions if nm_ not in ref_src and not nm_.startswith("__")}
+            res = refdefs.compare(node, ref_b, names=names, init_ok=init_ok, skip_under=branch_skip, unknown_calls=unknown)
             for nm, text, ln in res["mismatch"]:
                 if nm in skip:
                     continue
